@@ -1,12 +1,4 @@
 """Per-property claims for MANIFEST.json (bin/mkmanifest)."""
 NOTE_COMMON = ("Trusted: Coq 8.16.1 kernel + vm_compute; the fit2coq translator for coq/gen; the Go harness and its projection; "
                "cases.v rendering. No axioms of our own; axioms per theorem are printed into the evidence file.")
-CHECKS = {
- "C18": {
-  "technique": "Coq proof (table sweep 65536x16 by vm_compute lifted with forallb_forall + induction over the byte string) on the translated table/compute; differential scripts vs crc16 object",
-  "text": "Full proof: for every state and byte the translated nibble-table update equals 8 steps of the bit-serial CRC-16/ARC; by induction the checksum of every "
-          "byte string equals the reference, is independent of the split into writes, and any script of Write/Sum16/Sum/Reset refines the abstract object. "
-          "table and compute are regenerated from crc16.go on every run; Write/Sum/Reset glue is tied by differential scripts evaluated inside Coq.",
-  "note": NOTE_COMMON + " Go's range loop over the slice in Write is modelled as fold_left."},
-}
 PENDING_REASON = {}
